@@ -252,3 +252,50 @@ func VerifZlWrite() {
 	verifrt.Assert(vhEqual(fs.b[:hl], ss.b[:hl]), "C06:header-bytes")
 	verifrt.Assert(vhEqual(fs.b[len(fs.b)-4:], ss.b[len(ss.b)-4:]), "C06:trailer-bytes")
 }
+
+type vzSrc struct {
+	data     []byte
+	pos      int
+	err      error
+	withLast bool
+}
+
+func (s *vzSrc) Read(p []byte) (int, error) {
+	if s.pos >= len(s.data) {
+		return 0, s.err
+	}
+	n := copy(p, s.data[s.pos:])
+	s.pos += n
+	if s.pos >= len(s.data) && s.withLast {
+		return n, s.err
+	}
+	return n, nil
+}
+
+// VerifZlFail (C15, zlib): the source fails after k bytes of a valid stream.
+func VerifZlFail() {
+	full := []byte{0x78, 0x9c, 0x4b, 0x4c, 0x4a, 0x06, 0x00, 0x02, 0x4d, 0x01, 0x27} // "abc"
+	k := verifrt.Int()
+	verifrt.Assume(k >= 0 && k < len(full))
+	k = verifrt.Concretize(k)
+	fault := verifrt.ErrValue("src")
+	src := &vzSrc{data: full[:k], err: fault, withLast: verifrt.Pick("with", 2) == 1 && k > 0}
+	var r io.Reader = src
+	if verifrt.Pick("buf", 2) == 1 {
+		r = bufio.NewReaderSize(src, 16)
+	}
+	z, err := NewReader(r)
+	verifrt.Observe("k", uint64(k))
+	if err != nil {
+		verifrt.Cover("header-fault")
+		verifrt.Assert(err == fault, "C15:zlib-header-error-identity")
+		return
+	}
+	out, rerr := vzDrain(z, 2, 16)
+	verifrt.ObserveBytes("out", out)
+	verifrt.Cover("body-fault")
+	verifrt.Assert(rerr == fault, "C15:zlib-error-identity")
+	verifrt.Assert(vhPrefix(out, []byte("abc")), "C15:zlib-prefix")
+	k2, e2 := z.Read(make([]byte, 4))
+	verifrt.Assert(k2 == 0 && e2 == fault, "C15:zlib-sticky")
+}
